@@ -1,12 +1,776 @@
-// Package c20 decides C20 (see /verif/DESIGN.md §7).
+// Package c20 decides C20: the based sequencer releases the DA contents in DA order, each
+// transaction once, within the requested size, carrying over what did not fit, across restarts
+// (see /verif/DESIGN.md §7).
+//
+// Files: model.go (the harness's record of the DA contents, the window model behind the trigger
+// predicates, the predicted shapes), c20.go (generator, execution against the real sequencer,
+// oracle, reporting).
 package c20
 
-import "verifharness/vk"
+import (
+	"context"
+	"fmt"
+	"math/rand"
+	"strings"
+	"sync"
+
+	logging "github.com/ipfs/go-log/v2"
+
+	coresequencer "github.com/evstack/ev-node/core/sequencer"
+	"github.com/evstack/ev-node/sequencers/based"
+
+	"verifharness/vk"
+	"verifharness/world"
+)
 
 // Level is the verification level claimed for this property.
 const Level = "exploration"
 
+const chainID = "c20-chain"
+
+var seqLogger = logging.Logger("c20")
+
+// ------------------------------------------------------------------ generation
+
+type gen struct {
+	rng    *rand.Rand
+	uniq   int
+	used   map[string]bool // contents used in the current case
+	unique bool            // trigger regions: all transaction contents of a case are pairwise different
+}
+
+const txAlphabet = "abcdefghijklmnopqrstuvwxyzABCDEFGHIJKLMNOPQRSTUVWXYZ0123456789"
+
+// tx draws a transaction of 1..maxSize bytes. In the clean region small transactions repeat
+// often (4-letter alphabet); in the trigger regions contents are pairwise different so that the
+// shape of a deviation can be read off without ambiguity.
+func (g *gen) tx(maxSize int) string {
+	n := 1 + g.rng.Intn(maxSize)
+	if g.rng.Intn(6) == 0 {
+		n = 1 + g.rng.Intn(3)
+	}
+	for try := 0; ; try++ {
+		g.uniq++
+		id := fmt.Sprintf("%x.", g.uniq)
+		b := make([]byte, n)
+		for i := range b {
+			switch {
+			case i < len(id) && n >= len(id)+1:
+				b[i] = id[i]
+			case g.unique:
+				b[i] = txAlphabet[g.rng.Intn(len(txAlphabet))]
+			default:
+				b[i] = byte('a' + g.rng.Intn(4))
+			}
+		}
+		t := string(b)
+		if !g.unique || !g.used[t] {
+			g.used[t] = true
+			return t
+		}
+		if try%8 == 7 {
+			n++
+		}
+	}
+}
+
+func (g *gen) height(h uint64, maxTx, maxSize int) HeightTxs {
+	ht := HeightTxs{H: h}
+	if g.rng.Intn(4) == 0 {
+		return ht // empty height
+	}
+	n := g.rng.Intn(maxTx + 1)
+	for i := 0; i < n; i++ {
+		ht.Txs = append(ht.Txs, g.tx(maxSize))
+	}
+	return ht
+}
+
+func totalBytes(hts []HeightTxs) uint64 {
+	var n uint64
+	for _, ht := range hts {
+		for _, t := range ht.Txs {
+			n += uint64(len(t))
+		}
+	}
+	return n
+}
+
+func maxTx(w *daWorld) uint64 {
+	var m uint64
+	for _, ts := range w.content {
+		for _, t := range ts {
+			if uint64(len(t)) > m {
+				m = uint64(len(t))
+			}
+		}
+	}
+	return m
+}
+
+// genCase generates one case of the given region. Clean and skips-unproduced cases never let a
+// window content reach the limit; partial-fit and oversize cases do so on purpose.
+func (g *gen) genCase(id int, region string) Case {
+	for {
+		c := g.genOnce(id, region)
+		pb, skips := Triggers(c)
+		switch region {
+		case "clean":
+			if pb == nil && len(skips) == 0 {
+				return c
+			}
+		case "skips-unproduced":
+			if pb == nil && len(skips) > 0 {
+				return c
+			}
+		default:
+			if pb != nil && len(skips) == 0 {
+				return c
+			}
+		}
+	}
+}
+
+func (g *gen) genOnce(id int, region string) Case {
+	rng := g.rng
+	g.used = map[string]bool{}
+	g.unique = region != "clean"
+	c := Case{ID: id, Region: region, Start: []uint64{0, 1, 1, 3}[rng.Intn(4)], Drift: []uint64{0, 0, 1, 2, 5}[rng.Intn(5)]}
+	first := c.Start
+	if first == 0 {
+		first = 1
+	}
+	maxSize := []int{60, 60, 12, 4}[rng.Intn(4)]
+	nInit := 1 + rng.Intn(8)
+	for i := 0; i < nInit; i++ {
+		c.Initial = append(c.Initial, g.height(first+uint64(i), 6, maxSize))
+	}
+	s := newSim(c)
+	nSteps := 4 + rng.Intn(14)
+	natural := rng.Intn(2) == 0 // clean cases of the natural kind: the DA head stays ahead of the scan
+	for len(c.Steps) < nSteps {
+		p := rng.Intn(100)
+		switch {
+		case p < 18:
+			c.Steps = append(c.Steps, Step{Kind: "restart"})
+		case p < 38:
+			if s.pb != nil {
+				// partial regions: the DA is static once the first push-back has happened (the
+				// window model ends there, so the skip trigger could no longer be excluded)
+				continue
+			}
+			// DA growth: 1-3 new heights above the head
+			lo := s.w.head + 1
+			switch region {
+			case "skips-unproduced":
+				// may fill heights the scan has already passed
+			default:
+				if s.cursor > lo {
+					lo = s.cursor // never behind the scan position
+				}
+			}
+			if region != "skips-unproduced" && rng.Intn(3) == 0 {
+				lo += uint64(rng.Intn(3))
+			}
+			var hts []HeightTxs
+			n := 1 + rng.Intn(3)
+			for i := 0; i < n; i++ {
+				hts = append(hts, g.height(lo+uint64(i), 6, maxSize))
+			}
+			c.Steps = append(c.Steps, Step{Kind: "grow", Grow: hts})
+			s.grow(hts)
+		default:
+			if (region == "clean" && natural) && s.cursor+s.drift > s.w.head {
+				// keep the head ahead of the window: produce the missing heights first
+				var hts []HeightTxs
+				for h := s.w.head + 1; h <= s.cursor+s.drift; h++ {
+					hts = append(hts, g.height(h, 6, maxSize))
+				}
+				c.Steps = append(c.Steps, Step{Kind: "grow", Grow: hts})
+				s.grow(hts)
+			}
+			st := Step{Kind: "call"}
+			// scripted retrieval errors inside the coming window
+			if rng.Intn(100) < 25 && s.pb == nil {
+				n := 1 + rng.Intn(2)
+				for i := 0; i < n; i++ {
+					h := s.cursor + uint64(rng.Intn(int(s.drift)+1))
+					if h > s.w.head {
+						continue
+					}
+					kind := "listerr"
+					if len(s.w.content[h]) > 0 && rng.Intn(2) == 0 {
+						kind = "chunkerr"
+					}
+					st.Errs = append(st.Errs, ErrAt{H: h, Kind: kind})
+				}
+			}
+			s.arm(st.Errs)
+			wb := s.windowBytes()
+			switch region {
+			case "clean", "skips-unproduced":
+				st.Limit = wb + 1 + uint64(rng.Intn(40))
+				if rng.Intn(4) == 0 {
+					st.Limit = wb + 1 // tightest limit that still covers the window
+				}
+				if rng.Intn(6) == 0 {
+					st.Limit = wb + 100000
+				}
+			case "partial-fit":
+				// never below the largest transaction: everything fits some batch
+				m := maxTx(s.w) + 1
+				st.Limit = m + uint64(rng.Intn(int(wb/2+2)))
+				if rng.Intn(4) == 0 {
+					st.Limit = wb + 1 + uint64(rng.Intn(20))
+				}
+			case "oversize":
+				m := maxTx(s.w)
+				if m < 2 {
+					m = 2
+				}
+				st.Limit = 1 + uint64(rng.Intn(int(m)))
+				if rng.Intn(3) == 0 {
+					st.Limit = m + uint64(rng.Intn(int(wb/2+2)))
+				}
+			}
+			s.call(len(c.Steps), st.Limit)
+			c.Steps = append(c.Steps, st)
+		}
+	}
+	return c
+}
+
+// directed returns the smallest reproductions known of the three recorded findings.
+func directed() []Case {
+	call := func(l uint64) Step { return Step{Kind: "call", Limit: l} }
+	return []Case{
+		{ID: -1, Region: "partial-fit", Start: 1, Drift: 0, Initial: []HeightTxs{{H: 1, Txs: []string{"aa", "bb", "cc"}}, {H: 2, Txs: []string{"dd"}}},
+			Steps: []Step{call(5), call(5), call(5), call(5)}},
+		{ID: -2, Region: "skips-unproduced", Start: 1, Drift: 1, Initial: []HeightTxs{{H: 1, Txs: []string{"a"}}},
+			Steps: []Step{call(100), {Kind: "grow", Grow: []HeightTxs{{H: 2, Txs: []string{"b"}}}}, call(100)}},
+		{ID: -3, Region: "oversize", Start: 1, Drift: 0, Initial: []HeightTxs{{H: 1, Txs: []string{"a", "BIGGG"}}},
+			Steps: []Step{call(3), call(3), call(3)}},
+	}
+}
+
+// ------------------------------------------------------------------ execution and oracle
+
+// CallRec is one observed GetNextBatch.
+type CallRec struct {
+	Step     int      `json:"step"`
+	Limit    uint64   `json:"limit"`
+	Head     uint64   `json:"da_head"`
+	Released []string `json:"released"`
+	Bytes    uint64   `json:"bytes"`
+	Err      string   `json:"err,omitempty"`
+	Phase    string   `json:"phase,omitempty"`
+}
+
+// Verdict is the judgement of one case.
+type Verdict struct {
+	Kind     string    `json:"verdict"` // pass | finding | violation
+	Clause   string    `json:"clause,omitempty"`
+	ID       string    `json:"finding_id,omitempty"`
+	Detail   string    `json:"detail,omitempty"`
+	Calls    []CallRec `json:"calls"`
+	PushBack *pushBack `json:"model_push_back,omitempty"`
+	Skipped  []uint64  `json:"model_skipped_heights_filled_later,omitempty"`
+	hits     map[string]int64
+	nRestart int
+	nErr     int
+	nGrow    int
+	nRelCall int
+	partial  int
+	kinds    strings.Builder
+}
+
+func hex2(ts [][]byte) []string {
+	out := make([]string, len(ts))
+	for i, t := range ts {
+		out[i] = string(t)
+	}
+	return out
+}
+
+// Judge runs the case against the real based sequencer and judges it.
+func Judge(c Case) *Verdict {
+	v := &Verdict{Kind: "pass", hits: map[string]int64{}}
+	ctx := context.Background()
+	im := world.NewImage()
+	da := world.NewDADouble()
+	s := newSim(c) // window model (trigger predicates) and the harness's record of the DA contents
+	place := func(hts []HeightTxs) {
+		for _, ht := range hts {
+			if len(ht.Txs) == 0 {
+				da.SetHeight(ht.H)
+				continue
+			}
+			blobs := make([][]byte, len(ht.Txs))
+			for i, t := range ht.Txs {
+				blobs[i] = []byte(t)
+			}
+			da.Place(ht.H, blobs...)
+		}
+	}
+	place(c.Initial)
+	var ds *world.MemDS
+	var seq *based.Sequencer
+	start := func() error {
+		if ds != nil {
+			ds.CrashNow()
+		}
+		ds = world.NewMemDS(im)
+		var err error
+		seq, err = based.NewSequencer(seqLogger, da, []byte(chainID), c.Start, c.Drift, ds)
+		return err
+	}
+	fail := func(clause, detail string) *Verdict {
+		v.Kind, v.Clause, v.Detail = "violation", clause, detail
+		v.PushBack = s.pb
+		return v
+	}
+	if err := start(); err != nil {
+		return fail("startup", err.Error())
+	}
+	var last [][]byte
+	pS, pT := 0, 0 // released so far according to the strict / the skip-tolerant expectation
+	strictAlive, tolAlive := true, true
+	strictDeath := ""
+	afterRestart := false
+
+	// doCall performs one GetNextBatch and judges the batch. It returns a final verdict or nil.
+	doCall := func(stepIdx int, limit uint64, phase string) *Verdict {
+		resp, err := seq.GetNextBatch(ctx, coresequencer.GetNextBatchRequest{Id: []byte(chainID), LastBatchData: last, MaxBytes: limit})
+		rec := CallRec{Step: stepIdx, Limit: limit, Head: s.w.head, Phase: phase}
+		var B []string
+		if err != nil {
+			rec.Err = err.Error()
+		} else if resp != nil {
+			if resp.Batch != nil {
+				B = hex2(resp.Batch.Transactions)
+			}
+			last = resp.BatchData
+		}
+		for _, t := range B {
+			rec.Bytes += uint64(len(t))
+		}
+		rec.Released = B
+		v.Calls = append(v.Calls, rec)
+		if len(B) == 0 {
+			return nil
+		}
+		v.nRelCall++
+		v.hits["size-bound"]++
+		if rec.Bytes > limit {
+			return fail("size-bound", fmt.Sprintf("step %d: batch of %d bytes released for a requested size of %d: %s", stepIdx, rec.Bytes, limit, shortList(B)))
+		}
+		if afterRestart {
+			v.hits["restart-continuity"]++
+			afterRestart = false
+		}
+		En := s.w.stream(c.Start, nil)
+		Et := s.w.stream(c.Start, s.skipped)
+		match := func(E []TxAt, p int) bool {
+			if p+len(B) > len(E) {
+				return false
+			}
+			for i, t := range B {
+				if E[p+i].Tx != t {
+					return false
+				}
+			}
+			return true
+		}
+		if strictAlive {
+			if match(En, pS) {
+				v.hits["da-order"] += int64(len(B))
+				if pS+len(B) < len(En) && En[pS+len(B)].H == En[pS+len(B)-1].H {
+					v.partial++ // the batch ends inside a height
+				}
+				pS += len(B)
+			} else {
+				strictAlive = false
+				id, d := classify(B, En, pS, limit)
+				strictDeath = fmt.Sprintf("step %d (limit %d): %s", stepIdx, limit, d)
+				if s.pb != nil && s.pb.Call < stepIdx {
+					// partial regions: judged by the shape of the first deviation
+					v.PushBack = s.pb
+					if id != "" {
+						v.Kind, v.ID, v.Clause, v.Detail = "finding", id, "da-order", strictDeath
+						return v
+					}
+					return fail("da-order", "after a push-back, deviation of no known shape: "+strictDeath)
+				}
+			}
+		}
+		if tolAlive {
+			if match(Et, pT) {
+				pT += len(B)
+			} else {
+				tolAlive = false
+			}
+		}
+		if !strictAlive && (!tolAlive || !s.trigSkip()) {
+			return fail("da-order", strictDeath)
+		}
+		return nil
+	}
+
+	for i, st := range c.Steps {
+		switch st.Kind {
+		case "restart":
+			v.kinds.WriteString("R")
+			v.nRestart++
+			afterRestart = true
+			if err := start(); err != nil {
+				return fail("restart", "a new sequencer over the same datastore does not start: "+err.Error())
+			}
+		case "grow":
+			v.kinds.WriteString("g")
+			v.nGrow++
+			place(st.Grow)
+			s.grow(st.Grow)
+		case "call":
+			for _, e := range st.Errs {
+				da.ScriptRetrieve(e.H, world.RetrieveOutcome{Kind: e.Kind})
+				v.nErr++
+			}
+			s.arm(st.Errs)
+			wb := s.windowBytes()
+			s.call(i, st.Limit)
+			switch {
+			case len(st.Errs) > 0:
+				v.kinds.WriteString("e")
+			case st.Limit > wb:
+				v.kinds.WriteString("c")
+			default:
+				v.kinds.WriteString("p")
+			}
+			if r := doCall(i, st.Limit, ""); r != nil {
+				return r
+			}
+		}
+	}
+	// bounded progress: the DA is frozen, no faults, the limit admits everything: after enough
+	// calls every transaction on DA must have been released
+	big := uint64(100000)
+	for _, ts := range s.w.content {
+		for _, t := range ts {
+			big += uint64(len(t))
+		}
+	}
+	En := s.w.stream(c.Start, nil)
+	K := int(s.w.head-minU(s.w.head, c.Start)) + 1 + len(En) + 5
+	for k := 0; k < K; k++ {
+		s.call(len(c.Steps)+k, big)
+		if r := doCall(len(c.Steps)+k, big, "drain"); r != nil {
+			return r
+		}
+		if strictAlive && pS == len(En) && k >= 2 {
+			break
+		}
+	}
+	v.hits["completeness"]++
+	v.PushBack = s.pb
+	for h := range s.skippedHit {
+		v.Skipped = append(v.Skipped, h)
+	}
+	Et := s.w.stream(c.Start, s.skipped)
+	switch {
+	case strictAlive && pS == len(En):
+		return v
+	case s.trigSkip() && tolAlive && pT == len(Et):
+		missing := 0
+		for h := range s.skippedHit {
+			missing += len(s.w.content[h])
+		}
+		v.Kind, v.ID, v.Clause = "finding", "C20-skips-unproduced-heights", "completeness"
+		v.Detail = fmt.Sprintf("the %d tx of heights %v were never released (%d drain calls without faults); those heights lay inside a scan window while they were still above the DA head; everything else was released in order, once", missing, v.Skipped, K)
+		if !strictAlive {
+			v.Clause = "da-order"
+			v.Detail += "; first gap: " + strictDeath
+		}
+		return v
+	case strictAlive:
+		return fail("completeness", fmt.Sprintf("%d of %d tx on DA were never released after %d drain calls without faults (limit %d); next missing: %s at height %d pos %d", len(En)-pS, len(En), K, big, short(En[pS].Tx), En[pS].H, En[pS].Pos))
+	}
+	return fail("da-order", strictDeath)
+}
+
+func minU(a, b uint64) uint64 {
+	if a < b {
+		return a
+	}
+	return b
+}
+
+// ------------------------------------------------------------------ shrinking
+
+func sig(v *Verdict) string { return v.Kind + "/" + v.Clause + "/" + v.ID }
+
+func cloneCase(c Case) Case {
+	n := c
+	n.Initial = nil
+	for _, ht := range c.Initial {
+		n.Initial = append(n.Initial, HeightTxs{H: ht.H, Txs: append([]string(nil), ht.Txs...)})
+	}
+	n.Steps = nil
+	for _, st := range c.Steps {
+		m := st
+		m.Errs = append([]ErrAt(nil), st.Errs...)
+		m.Grow = nil
+		for _, ht := range st.Grow {
+			m.Grow = append(m.Grow, HeightTxs{H: ht.H, Txs: append([]string(nil), ht.Txs...)})
+		}
+		n.Steps = append(n.Steps, m)
+	}
+	return n
+}
+
+// shrink drops steps, scripted errors and transactions while the verdict keeps its signature.
+func shrink(c Case) Case {
+	want := sig(Judge(c))
+	try := func(n Case) bool {
+		if sig(Judge(n)) == want {
+			c = n
+			return true
+		}
+		return false
+	}
+	for changed := true; changed; {
+		changed = false
+		for i := len(c.Steps) - 1; i >= 0; i-- {
+			n := cloneCase(c)
+			n.Steps = append(n.Steps[:i], n.Steps[i+1:]...)
+			if try(n) {
+				changed = true
+			}
+		}
+		for i := range c.Steps {
+			if len(c.Steps[i].Errs) > 0 {
+				n := cloneCase(c)
+				n.Steps[i].Errs = nil
+				if try(n) {
+					changed = true
+				}
+			}
+		}
+		dropTx := func(get func(n *Case) []HeightTxs) {
+			for hi := 0; hi < len(get(&c)); hi++ {
+				for ti := len(get(&c)[hi].Txs) - 1; ti >= 0; ti-- {
+					n := cloneCase(c)
+					hts := get(&n)
+					hts[hi].Txs = append(hts[hi].Txs[:ti], hts[hi].Txs[ti+1:]...)
+					if try(n) {
+						changed = true
+					}
+				}
+			}
+		}
+		dropTx(func(n *Case) []HeightTxs { return n.Initial })
+		for i := range c.Steps {
+			if c.Steps[i].Kind == "grow" {
+				i := i
+				dropTx(func(n *Case) []HeightTxs { return n.Steps[i].Grow })
+			}
+		}
+	}
+	return c
+}
+
+// ------------------------------------------------------------------ reporting
+
+func describe(c Case) string {
+	var sb strings.Builder
+	fmt.Fprintf(&sb, "start=%d drift=%d DA{", c.Start, c.Drift)
+	hs := func(hts []HeightTxs) string {
+		var p []string
+		for _, ht := range hts {
+			p = append(p, fmt.Sprintf("%d:%s", ht.H, shortList(ht.Txs)))
+		}
+		return strings.Join(p, " ")
+	}
+	sb.WriteString(hs(c.Initial) + "} steps[")
+	for i, st := range c.Steps {
+		if i > 0 {
+			sb.WriteString(", ")
+		}
+		switch st.Kind {
+		case "call":
+			fmt.Fprintf(&sb, "call(limit %d", st.Limit)
+			for _, e := range st.Errs {
+				fmt.Fprintf(&sb, " %s@%d", e.Kind, e.H)
+			}
+			sb.WriteString(")")
+		case "grow":
+			sb.WriteString("grow{" + hs(st.Grow) + "}")
+		default:
+			sb.WriteString(st.Kind)
+		}
+	}
+	sb.WriteString("]")
+	return sb.String()
+}
+
+func released(v *Verdict) string {
+	var p []string
+	for _, r := range v.Calls {
+		p = append(p, shortList(r.Released))
+	}
+	return strings.Join(p, "")
+}
+
+type reporter struct {
+	r    *vk.Run
+	mu   sync.Mutex
+	seen map[string]int
+}
+
+func (rp *reporter) limit(sig string, n int) bool {
+	rp.mu.Lock()
+	defer rp.mu.Unlock()
+	rp.seen[sig]++
+	return rp.seen[sig] <= n
+}
+
+func triggerText(id string) string {
+	switch id {
+	case "C20-rescan-after-partial":
+		return "a call whose scan window (heights c..c+drift from the scan position c) holds more than fits strictly below the call's limit, so that the scan stops inside the window and carries transactions over"
+	case "C20-skips-unproduced-heights":
+		return "a height lay inside the scan window of a call while it was still above the DA head, and received transactions afterwards"
+	}
+	return "after a push-back, a call whose limit does not admit the next carried-over transaction while smaller transactions are available at the scan position"
+}
+
+func (rp *reporter) handle(c Case, v *Verdict) {
+	r := rp.r
+	for k, n := range v.hits {
+		r.HitN(k, n)
+	}
+	r.Count("cases_"+c.Region, 1)
+	r.Count("calls", int64(len(v.Calls)))
+	r.Count("restarts", int64(v.nRestart))
+	r.Count("scripted_retrieval_errors", int64(v.nErr))
+	r.Count("growth_steps", int64(v.nGrow))
+	r.Count("batches_ending_inside_a_height_"+c.Region, int64(v.partial))
+	var txs int64
+	for _, cr := range v.Calls {
+		txs += int64(len(cr.Released))
+	}
+	r.Count("txs_released", txs)
+	nontrivial := v.nRelCall >= 2 && (v.nRestart+v.nErr+v.nGrow+v.partial > 0)
+	r.Eval(fmt.Sprintf("%s/s%d/d%d/%s", c.Region, c.Start, c.Drift, v.kinds.String()), nontrivial,
+		map[string]any{"region": c.Region, "case": describe(c), "released": released(v), "verdict": v.Kind})
+	w := func(cc Case, vv *Verdict) map[string]any {
+		pb, skips := Triggers(cc)
+		return map[string]any{"case": cc, "verdict": vv, "trigger_push_back": pb, "trigger_skipped_heights_filled_later": skips}
+	}
+	switch v.Kind {
+	case "pass":
+		if c.Region != "clean" {
+			r.Count("trigger_case_without_failure", 1)
+		}
+	case "finding":
+		r.Count("reproduced:"+v.ID, 1)
+		if c.Region == "clean" {
+			// cannot happen: shapes are only considered after a trigger
+			rp.violation(c, v, w)
+			return
+		}
+		first := rp.limit("finding/"+v.ID, 1)
+		if !first && !r.IsKnown(v.ID) {
+			return
+		}
+		small, sv := c, v
+		if first {
+			small = shrink(c)
+			sv = Judge(small)
+		}
+		ww := w(small, sv)
+		ww["trigger"] = triggerText(v.ID)
+		r.Finding(sv.ID, sv.Clause, fmt.Sprintf("%s released=%s: %s", describe(small), released(sv), sv.Detail), ww)
+	case "violation":
+		rp.violation(c, v, w)
+	}
+}
+
+func (rp *reporter) violation(c Case, v *Verdict, w func(Case, *Verdict) map[string]any) {
+	if !rp.limit("violation/"+v.Clause, 4) {
+		rp.r.Count("violations_not_listed:"+v.Clause, 1)
+		return
+	}
+	small, sv := c, v
+	if v.Kind == "violation" {
+		small = shrink(c)
+		sv = Judge(small)
+	}
+	ww := w(small, sv)
+	ww["original_case"] = c
+	rp.r.Violation(sv.Clause, fmt.Sprintf("region=%s %s released=%s: %s", c.Region, describe(small), released(sv), sv.Detail), ww)
+}
+
+func pool(n int, f func(i int)) {
+	var wg sync.WaitGroup
+	ch := make(chan int)
+	for w := 0; w < 12; w++ {
+		wg.Add(1)
+		go func() {
+			defer wg.Done()
+			for i := range ch {
+				f(i)
+			}
+		}()
+	}
+	for i := 0; i < n; i++ {
+		ch <- i
+	}
+	close(ch)
+	wg.Wait()
+}
+
 // Run is the check entry point.
 func Run(r *vk.Run) {
-	r.Rule = "not implemented yet"
+	world.Silence()
+	r.Rule = "seeded cases: DA contents of 1-8 initial heights x 0-6 txs of 1-60 bytes (empty heights included), start height 0|1|3, max height drift 0|1|2|5, 4-17 steps {GetNextBatch(limit, LastBatchData passed back as the block manager does) with optional scripted retrieval errors | restart (new Sequencer on the same datastore) | DA growth above the head}, then a drain phase with a limit above everything; " +
+		"non-trivial = >= 2 calls released txs and >= 1 restart, retrieval error, growth step or batch ending inside a height; distinct by (region, start, drift, step-kind sequence: c call covering its window | p call with limit below its window content | e call with errors | R restart | g growth). " +
+		"Regions: clean = no call's scan window reaches the call's limit and no height passed while unproduced is filled later; skips-unproduced = the latter happens (limits still above the windows); partial-fit / oversize = some window reaches the limit (limits >= every tx / limits below single txs)."
+	r.Assume("DA layer is the DADouble: heights at or below the head are immutable, growth only above the head; retrieval errors are transient (listing error or chunk error), never a lie about contents")
+	r.Assume("datastore is the in-memory MemDS double; a restart is a new Sequencer over the same image")
+	r.Assume("bounded progress: with the DA frozen, no faults and a limit above everything, (heights + txs + 5) calls must release everything up to the head")
+	r.Assume("clean region of today's tree is narrow: every call's limit exceeds the content of its whole scan window, so no batch ever ends inside a height there (any carry-over triggers C20-rescan-after-partial)")
+	rp := &reporter{r: r, seen: map[string]int{}}
+
+	n := r.N(300, 10000)
+	nClean := n / 2
+	nSkip := n * 15 / 100
+	nPart := n * 20 / 100
+	nOver := n - nClean - nSkip - nPart
+	g := &gen{rng: r.Rand("cases")}
+	mk := func(region string, k, base int) []Case {
+		out := make([]Case, k)
+		for i := range out {
+			out[i] = g.genCase(base+i, region)
+		}
+		return out
+	}
+	clean := mk("clean", nClean, 0)
+	skip := mk("skips-unproduced", nSkip, nClean)
+	part := mk("partial-fit", nPart, nClean+nSkip)
+	over := mk("oversize", nOver, nClean+nSkip+nPart)
+
+	r.Require("da-order", int64(nClean*3))
+	r.Require("size-bound", int64(nClean*2))
+	r.Require("restart-continuity", int64(nClean/2))
+	r.Require("completeness", int64(nClean))
+
+	// 1. clean region: every failure is a violation
+	pool(len(clean), func(i int) { rp.handle(clean[i], Judge(clean[i])) })
+	// 2. trigger regions, the smallest known reproductions first
+	for _, c := range directed() {
+		rp.handle(c, Judge(c))
+	}
+	pool(len(skip), func(i int) { rp.handle(skip[i], Judge(skip[i])) })
+	pool(len(part), func(i int) { rp.handle(part[i], Judge(part[i])) })
+	pool(len(over), func(i int) { rp.handle(over[i], Judge(over[i])) })
 }
